@@ -75,6 +75,12 @@ func (s *Scanner) readNextRune() {
 	}
 }
 
+// nextRuneIsInvalid reports whether the scanner is at a byte that does not begin a valid UTF-8
+// sequence (as opposed to a correctly encoded U+FFFD, for which DecodeRune also returns RuneError).
+func (s *Scanner) nextRuneIsInvalid() bool {
+	return s.nextRune == utf8.RuneError && s.nextRuneSize == 1
+}
+
 func (s *Scanner) peek() rune {
 	r, _ := utf8.DecodeRune(s.src[s.offset+s.nextRuneSize:])
 	return r
@@ -146,7 +152,9 @@ func (s *Scanner) Scan() bool {
 			s.token = token.LINE_TERMINATOR
 		case '#':
 			for !s.isDone() && s.nextRune != '\r' && s.nextRune != '\n' {
-				if !isSourceCharacter(s.nextRune) {
+				if s.nextRuneIsInvalid() {
+					s.errorf("invalid utf-8 character in comment")
+				} else if !isSourceCharacter(s.nextRune) {
 					s.errorf("illegal character %#U in comment", s.nextRune)
 				}
 				s.consumeRune()
